@@ -19,7 +19,12 @@ import (
 	"time"
 )
 
-const verifRoot = "/verif"
+var verifRoot = func() string {
+	if v := os.Getenv("VERIF_ROOT"); v != "" {
+		return v
+	}
+	return "/verif"
+}()
 
 type Viol struct {
 	Key    string      `json:"key"`
